@@ -1,12 +1,30 @@
 pub mod c03;
+pub mod dbg_checks;
 
 use crate::engine::Check;
 
 pub fn by_id(id: &str) -> Option<&'static dyn Check> {
     match id {
         "C03" => Some(&c03::C03),
+        "C09" => Some(&dbg_checks::C09),
+        "C10" => Some(&dbg_checks::C10),
+        "C11" => Some(&dbg_checks::C11),
+        "C12" => Some(&dbg_checks::C12),
+        "C13" => Some(&dbg_checks::C13),
+        "C15" => Some(&dbg_checks::C15),
+        "C16" => Some(&dbg_checks::C16),
         _ => None,
     }
 }
 
-pub const ALL: &[&str] = &["C03"];
+const FEATURES: [&str; 36] = [
+    "alu", "ld_st", "ldi_sti", "ldr_str", "loop", "nested_loop", "call_rets", "jsr_ret", "push_pop", "nested_sub",
+    "jsrr", "recursion_call", "recursion_jsr", "self_modify", "puts", "out", "putn", "putsp", "trap_lit", "reg",
+    "input", "cond_branch", "mid_halt", "jump_ffff", "jump_below", "jump_above", "unknown_trap",
+    "raw_stack_word_flag_off", "ret_from_main", "fall_off_end", "", "", "", "", "", "",
+];
+
+/// Feature names travel through JSON; give them back their static lifetime.
+pub fn intern_feature(name: &str) -> Option<&'static str> {
+    FEATURES.iter().copied().find(|f| !f.is_empty() && *f == name)
+}
